@@ -454,6 +454,11 @@ class _Expr(SymEval):
                 kw = {k.arg: self.eval(k.value) for k in n.keywords if k.arg is not None}
                 res = _prog_call(getattr(base, f.attr), *args, **kw)
                 return list(res) if f.attr in ("items", "keys", "values") else res
+        if isinstance(f, ast.Name) and f.id in self.env and isinstance(self.env[f.id], type) and self.env[f.id] in (int, float, str, bool):
+            args = [self.eval(a) for a in n.args]
+            if any(isinstance(a, (Sym, Rec, np.ndarray)) for a in args):
+                raise NotSymbolic("type conversion of a symbolic / array value")
+            return _prog_call(self.env[f.id], *args)
         if isinstance(f, ast.Name) and f.id in self.env and isinstance(self.env[f.id], tuple) and len(self.env[f.id]) == 2 and self.env[f.id][0] == "<function>":
             target = self.env[f.id][1]
             args = [self.eval(a) for a in n.args]
